@@ -238,7 +238,10 @@ func runCase(h *hx.H, o caseOpts, src string) sexp.Node {
 		sexp.L(sexp.Sym("canmerge"), sexp.Uint64(sA.calls["validateFieldsInSetCanMerge"])),
 		sexp.L(sexp.Sym("sameshape"), sexp.Uint64(sA.calls["validateSameResponseShape"])),
 		sexp.L(sexp.Sym("addfs"), sexp.Uint64(sA.calls["addFieldSelections"])),
-		sexp.L(sexp.Sym("addfscd"), sexp.Uint64(sA.calls["addFieldSelectionsWithCycleDetection"])))
+		sexp.L(sexp.Sym("addfscd"), sexp.Uint64(sA.calls["addFieldSelectionsWithCycleDetection"])),
+		sexp.L(sexp.Sym("runes"), sexp.Uint64(sA.calls["scan.consumeRune"])),
+		sexp.L(sexp.Sym("peeks"), sexp.Uint64(sA.calls["scan.peek"])),
+		sexp.L(sexp.Sym("decodes"), sexp.Uint64(sA.calls["scan.readNextRune"])))
 	text := sexp.Sym("none")
 	if len(src) <= 400 {
 		text = sexp.Str(src)
@@ -309,6 +312,28 @@ func main() {
 			var rec func(cur []string, depth int)
 			rec = func(cur []string, depth int) {
 				emit(caseOpts{family: "exhaustive", n: len(cur)}, fixed(prefix+" "+strings.Join(cur, " ")))
+				if depth == k {
+					return
+				}
+				for _, t := range denseTokens {
+					rec(append(cur[:len(cur):len(cur)], t), depth+1)
+				}
+			}
+			rec(nil, 0)
+		}
+
+		// 2b. the same alphabet without the separating blanks (adjacent tokens: "a$", "1a", "...a", "on{"):
+		// every sequence of length <= 2 (3 in the thorough tier) after each prefix
+		for _, prefix := range exhaustivePrefixes {
+			k := 2
+			if h.Thorough() {
+				k = 3
+			}
+			var rec func(cur []string, depth int)
+			rec = func(cur []string, depth int) {
+				if depth > 0 {
+					emit(caseOpts{family: "compact", n: len(cur)}, fixed(prefix+strings.Join(cur, "")))
+				}
 				if depth == k {
 					return
 				}
